@@ -135,6 +135,7 @@ fn replay_c07(args: &[String]) {
         let mut v = outcome_json(&o);
         v["i"] = json!(i);
         v["line"] = json!(r.line);
+        v["pre_line"] = json!(r.pre_line);
         v["key"] = json!(cell.key());
         v.to_string()
     });
@@ -167,7 +168,12 @@ struct Recorded {
 fn record_generated(seed: u64, i: usize, statements: usize, mutants: usize) -> Recorded {
     let mut g = gen07::Gen::new(seed, i as u64);
     let program = g.program(statements, 3);
-    let (source, _at, _ret_line) = program.render();
+    // a SECOND function with a body of its own (same function heads), before `t` in every other module
+    let mut g2 = gen07::Gen::new(seed ^ 0x2F2F, i as u64);
+    g2.funcs = program.funcs.clone();
+    let second = g2.program((statements / 2).max(3), 3);
+    let second_first = i % 2 == 1;
+    let (source, _, _) = program.render_module(Some(&second), second_first);
     let mut lines = Vec::new();
     let mut sources = vec![json!({"id": i, "mut": -1, "source": source}).to_string()];
     let r = facts::resolve_source(&source, "gen.pn");
@@ -189,16 +195,29 @@ fn record_generated(seed: u64, i: usize, statements: usize, mutants: usize) -> R
         }
     }
     let nsites = gen07::count_sites(&program, &g.vars);
+    let nsites2 = gen07::count_sites(&second, &g2.vars);
     let mut rng = pvh::rng::Rng::new(seed ^ 0x5151, i as u64);
     for k in 0..mutants {
-        let target = rng.below(nsites.max(1));
-        let Some(m) = gen07::mutate(&program, &g.vars, target, &mut rng) else { continue };
-        let (msource, at, ret_line) = m.program.render();
-        let line = if m.stmt < at.len() { at[m.stmt] } else { ret_line };
+        // every third mutant edits the second function
+        let in_second = k % 3 == 2;
+        let (msource, line, m) = if in_second {
+            let target = rng.below(nsites2.max(1));
+            let Some(m) = gen07::mutate(&second, &g2.vars, target, &mut rng) else { continue };
+            let (msource, _, (at, ret_line)) = program.render_module(Some(&m.program), second_first);
+            let line = if m.stmt < at.len() { at[m.stmt] } else { ret_line };
+            (msource, line, m)
+        } else {
+            let target = rng.below(nsites.max(1));
+            let Some(m) = gen07::mutate(&program, &g.vars, target, &mut rng) else { continue };
+            let (msource, (at, ret_line), _) = m.program.render_module(Some(&second), second_first);
+            let line = if m.stmt < at.len() { at[m.stmt] } else { ret_line };
+            (msource, line, m)
+        };
         let o = alpha::run_single(&msource, "mut.pn", alpha::Upto::Resolve, false);
         let at_line: Vec<u16> = o.diags.iter().filter(|d| d.line == line).map(|d| d.code).collect();
+        let place = if in_second { if second_first { "u-before-t" } else { "u-after-t" } } else if second_first { "t-after-u" } else { "t-before-u" };
         let mut rec = json!({"ev": "mut", "id": i, "mut": k, "edit": m.edit, "c": m.cell.to_json(), "key": m.cell.key(), "line": line,
-                             "ok": o.ok, "codes": at_line, "all": codes_json(&o.diags)});
+                             "fn": place, "ok": o.ok, "codes": at_line, "all": codes_json(&o.diags)});
         if let Some(p) = &o.panic {
             rec["panic"] = json!(panic_signature(p));
         }
@@ -313,6 +332,7 @@ fn replay_c08(args: &[String]) {
         let mut v = outcome_json(&o);
         v["i"] = json!(i);
         v["line"] = json!(r.line);
+        v["pre_line"] = json!(r.pre_line);
         v["key"] = json!(cell.key());
         v.to_string()
     });
@@ -323,7 +343,7 @@ fn show_c08(args: &[String]) {
     let case: Value = serde_json::from_str(&args[0]).expect("json");
     let cell = c08::Cell::from_case(&case);
     let r = c08::render(&cell);
-    println!("cell: {}   (construct on line {})", cell.key(), r.line);
+    println!("cell: {}   (construct on line {}, illegal neighbour on line {})", cell.key(), r.line, r.pre_line);
     show_source(&r.source, false, false);
 }
 
@@ -376,9 +396,10 @@ fn run_ce(args: &[String]) {
     let results = par_map(&lines, |i, line| {
         let case: Value = serde_json::from_str(line).expect("case json");
         let ps = ce::params(&case);
-        let source = ce::render(&ps);
+        let pv = ce::variant(&case);
+        let source = ce::render_pv(&ps, &pv);
         let o = alpha::run_single(&source, "case.pn", alpha::Upto::Resolve, false);
-        let mut v = json!({"ev": "run", "i": i, "key": ce::key(&ps), "prog": case["prog"], "ok": o.ok,
+        let mut v = json!({"ev": "run", "i": i, "key": ce::key_pv(&ps, &pv), "prog": case["prog"], "pv": pv, "ok": o.ok,
                            "codes": o.diags.iter().map(|d| d.code).collect::<Vec<_>>()});
         if let Some(p) = &o.panic {
             v["panic"] = json!(panic_signature(p));
@@ -443,7 +464,10 @@ fn gen_ce(args: &[String]) {
             let sc = *rng.pick(&ty::STMT_CONTEXTS);
             prog.push(json!({"kd": kd, "way": way, "amp": amp, "sc": sc}));
         }
-        lines.push(json!({"prog": prog}).to_string());
+        // (a generator of its own, so that the draws above stay what they were) the program variant
+        let mut vrng = pvh::rng::Rng::new(seed ^ 0xCE7, i as u64);
+        let pv = if vrng.chance(40) { *vrng.pick(&["mainfirst", "twice", "mainfirst_twice"]) } else { "" };
+        lines.push(json!({"prog": prog, "pv": pv}).to_string());
     }
     write_lines(&args[2], &lines);
 }
@@ -451,8 +475,9 @@ fn gen_ce(args: &[String]) {
 fn show_ce(args: &[String]) {
     let case: Value = serde_json::from_str(&args[0]).expect("json");
     let ps = ce::params(&case);
-    let source = ce::render(&ps);
-    println!("program: {}", ce::key(&ps));
+    let pv = ce::variant(&case);
+    let source = ce::render_pv(&ps, &pv);
+    println!("program: {}", ce::key_pv(&ps, &pv));
     show_source(&source, false, false);
     let r = exec_in_child(&source);
     println!("execution: {r}");
@@ -465,7 +490,7 @@ fn show_c07(args: &[String]) {
     let case: Value = serde_json::from_str(&args[0]).expect("json");
     let cell = c07::Cell::from_json(if case.get("c").is_some() { &case["c"] } else { &case });
     let r = c07::render(&cell);
-    println!("cell: {}   (construct on line {})", cell.key(), r.line);
+    println!("cell: {}   (construct on line {}, ill-typed neighbour on line {})", cell.key(), r.line, r.pre_line);
     show_source(&r.source, false, false);
 }
 
